@@ -34,28 +34,38 @@ def chunks(evs, n):
     return [(i, evs[i:i + k]) for i in range(0, len(evs), k)]
 
 
-def validate(ctx, evs, tag, nchunks, source):
-    """Validate events through Trace_BlobRef in parallel chunks; classify every VIOL. Returns #viol lines."""
-    if not evs:
-        return 0
-    ctx.specs()
+JVM = {"JAVA_TOOL_OPTIONS": "-XX:ParallelGCThreads=2 -XX:TieredStopAtLevel=1"}     # short runs: C1 only, few GC threads
 
-    def work(ch):
-        off, part = ch
+
+def validate_all(ctx, streams, workers=10):
+    """streams = [(events, tag, nchunks, source)].  Validates every chunk through Trace_BlobRef (one pool for
+    all streams), classifies every VIOL; returns the number of lines with differences."""
+    ctx.specs()
+    jobs = []
+    for evs, tag, nchunks, source in streams:
+        for off, part in (chunks(evs, nchunks) if evs else []):
+            jobs.append((evs, tag, source, off, part))
+
+    def work(j):
+        evs, tag, source, off, part = j
         tf = ctx.path("tr_%s_%d.ndjson" % (tag, off))
         vlib.write_jsonl(tf, part)
-        r = ctx.tlc_trace(TRACE[0], TRACE[1], tf, timeout=900)
+        r = ctx.tlc_trace(TRACE[0], TRACE[1], tf, timeout=900, env=JVM)
         os.remove(tf)
         if not r["accepted"]:
             raise vlib.MachineryError("trace %s@%d not fully consumed: %s" % (tag, off, r["out"][-1500:]))
-        return off, r["viols"]
+        return j, r["viols"]
     nv = 0
-    with ThreadPoolExecutor(max_workers=min(nchunks, 12)) as ex:
-        for off, viols in ex.map(work, chunks(evs, nchunks)):
+    with ThreadPoolExecutor(max_workers=workers) as ex:
+        for (evs, tag, source, off, part), viols in ex.map(work, jobs):
             for line, text in viols:
                 nv += 1
                 classify(ctx, evs[off + line - 1], text, source)
     return nv
+
+
+def validate(ctx, evs, tag, nchunks, source):
+    return validate_all(ctx, [(evs, tag, nchunks, source)])
 
 
 def text_of(a):
@@ -74,25 +84,37 @@ def classify(ctx, ev, text, source):
     site = ""
     if ev.get("panic"):
         site = "@" + ev["panic"].split("@")[-1]
+    # one event can differ in several answers for one reason (a string wrongly accepted changes every entry
+    # point): when the parse entry points disagree, the dependent "na" answers are dropped, and answers that
+    # differ in the same way are reported together under one signature
+    # C20/<class of the ref or string>/<functions>/<input class>/<expected>-><observed>
+    primary = {"parse", "bytes", "orzero", "valid", "ujson"}
+    if any(d[0] in primary and not d[3] for d in diffs):
+        diffs = [d for d in diffs if d[3] or (d[0] != "probes" and "na" not in (d[1], d[2]))]
+        diffs = [d for d in diffs if not (d[0] == "probes")]
+    groups = {}
     for d in diffs:
-        # signature: C20/<class of the ref or string>/<function>/<input class>/<expected>-><observed>
         if d[3]:     # probe difference: function, probe class, expected, observed
             field, icls, exp, obs = d[0], d[1], d[2], d[3]
             cls = tag.split(",")[0].replace("+odd", "")     # the receiver of HasPrefix / EqualString
         else:
             field, icls, exp, obs = d[0], {"str": "text", "pair": "pair", "hash": "content"}.get(kind, kind), d[1], d[2]
             cls = tag
+        groups.setdefault((cls, icls, exp, obs), []).append(field)
+    if kind == "str":
+        inp = {"s": ev["s"]}
+        shown = repr(text_of(ev["s"]))
+    elif kind == "pair":
+        inp = {"ta": ev["ta"], "tb": ev["tb"]}
+        shown = "%r vs %r" % (text_of(ev["ta"]), text_of(ev["tb"]))
+    else:
+        inp = {"fuzz": source.get("fuzz"), "seed": source.get("seed")}
+        shown = "content of %s bytes" % ev.get("n")
+    for (cls, icls, exp, obs), fields in sorted(groups.items()):
+        field = "+".join(sorted(set(fields)))
         sig = "C20/%s/%s/%s/%s->%s%s" % (cls, field, icls, exp, obs, site if obs == "p" else "")
-        if kind == "str":
-            inp = {"s": ev["s"]}
-            shown = repr(text_of(ev["s"]))
-        elif kind == "pair":
-            inp = {"ta": ev["ta"], "tb": ev["tb"]}
-            shown = "%r vs %r" % (text_of(ev["ta"]), text_of(ev["tb"]))
-        else:
-            inp = {"fuzz": source.get("fuzz"), "seed": source.get("seed")}
-            shown = "content of %s bytes" % ev.get("n")
-        what = "%s: %s (%s) expected %s, observed %s%s" % (shown, field, icls, exp, obs, (" (" + ev["panic"] + ")") if obs == "p" and ev.get("panic") else "")
+        what = "%s: %s (%s) expected %s, observed %s%s" % (shown[:200], field, icls, exp, obs,
+                                                           (" (" + ev["panic"] + ")") if obs == "p" and ev.get("panic") else "")
         ctx.discrepancy(sig, what[:500], {"property": "C20", "kind": kind, "input": inp, "signature": sig,
                                           "source": source, "event": {k: v for k, v in ev.items() if k not in ("probes",)}})
 
@@ -141,7 +163,7 @@ def negative_samples(ctx, strs, pairs, hashes):
     bad.append(e)
     tf = ctx.path("neg.ndjson")
     vlib.write_jsonl(tf, bad)
-    r = ctx.tlc_trace(TRACE[0], TRACE[1], tf)
+    r = ctx.tlc_trace(TRACE[0], TRACE[1], tf, env=JVM)
     os.remove(tf)
     got = sorted(set(v[0] for v in r["viols"]))
     if not r["accepted"] or got != list(range(1, len(bad) + 1)):
@@ -216,6 +238,7 @@ def run(ctx, replay):
         f2 = ex.submit(drive, ctx, drv, ["-pairs", pf], ctx.path("o_pair.ndjson"))
         f3 = ex.submit(drive, ctx, drv, ["-fuzz", str(nf), "-seed", str(ctx.seed)], ctx.path("o_fuzz.ndjson"))
         e_str, e_pair, e_fuzz = f1.result(), f2.result(), f3.result()
+    ctx.log("driver: %d string lines, %d pair lines, %d fuzz lines" % (len(e_str), len(e_pair), len(e_fuzz)))
     if len(e_str) != len(strs_in) or len(e_pair) != len(pairs_in):
         raise vlib.MachineryError("driver dropped inputs: %d/%d strings, %d/%d pairs" % (len(e_str), len(strs_in), len(e_pair), len(pairs_in)))
     if any(e["ev"] == "pairfail" for e in e_pair):
@@ -235,11 +258,10 @@ def run(ctx, replay):
     ctx.sample({"fuzz_string": text_of(e_fuzz[7]["s"]), "obs": e_fuzz[7]["obs"]})
     # ---- T
     src = {"tier": ctx.tier, "seed": ctx.seed, "fuzz": nf}
-    with ThreadPoolExecutor(max_workers=3) as ex:
-        a = ex.submit(validate, ctx, e_str, "str", 6 if quick else 12, dict(src, leg="G-strings"))
-        b = ex.submit(validate, ctx, e_pair, "pair", 6, dict(src, leg="G-pairs"))
-        c = ex.submit(validate, ctx, e_fuzz, "fuzz", 4 if quick else 10, dict(src, leg="T-fuzz"))
-        nv = a.result() + b.result() + c.result()
+    nv = validate_all(ctx, [(e_pair, "pair", 5, dict(src, leg="G-pairs")),
+                            (e_str, "str", 6 if quick else 16, dict(src, leg="G-strings")),
+                            (e_fuzz, "fuzz", 3 if quick else 12, dict(src, leg="T-fuzz"))])
+    ctx.log("T: %d lines validated by Trace_BlobRef, %d with differences" % (len(e_str) + len(e_pair) + len(e_fuzz), nv))
     negative_samples(ctx, e_str, e_pair + [e for e in f_pairs if e["ev"] == "pair"], f_hash)
     total = len(e_str) + len(e_pair) + len(e_fuzz)
     ctx.count("T", lines=total, lines_with_differences=nv, fuzz_lines=len(e_fuzz),
